@@ -1239,6 +1239,56 @@ def translate_imp(module, name, ret, ptext, body, consts, known, imp_known):
     return {'name': name, 'lean': text, 'params': pk, 'written': written, 'outs': outs, 'ret_kind': ret_kind, 'consts': sorted(cx.used_consts), 'calls': sorted(cx.calls)}
 
 
+# ----------------------------------------------------------------------------------------------------------- Python-level glue
+
+def glue_map(path, fname, callee):
+    """Data flow of a `def` wrapper that unpacks dictionaries into the arguments of a compiled kernel: for every parameter of `callee`, the set of
+    dictionary entries (`source.key`) that can reach it through plain assignments `v = d['k']`, `v = d[i]['k']`, `v = d.get('k', default)`,
+    `a[i] = d[i]['k']` inside `fname`.  A table, not a proof: it is compared with the hand-written table of what the Python path reads."""
+    lines = open(path).read().split('\n')
+    body, on, ind0 = [], False, 0
+    for l in lines:
+        st = strip_comment(l)
+        if re.match(r'^\s*def\s+%s\s*\(' % re.escape(fname), st):
+            on, ind0 = True, len(st) - len(st.lstrip())
+            continue
+        if on:
+            if st.strip() and (len(st) - len(st.lstrip())) <= ind0 and not st.lstrip().startswith('#'):
+                break
+            body.append(st)
+    if not body:
+        return None
+    flows = {}
+    pat = re.compile(r"^\s*(?:cdef\s+[\w\[\]:, ]+?\s+)?(\w+)(?:\[[\w, ]+\])?\s*=\s*(?:<\w+>)?\s*(\w+)(?:\[\w+\])*(?:\.get\(\s*|\[)'(\w+)'")
+    for l in body:
+        m = pat.match(l.rstrip(';'))
+        if m:
+            flows.setdefault(m.group(1), set()).add('%s.%s' % (m.group(2), m.group(3)))
+    call = None
+    joined = ' '.join(b.strip() for b in body)
+    m = re.search(r'%s\s*\(([^()]*(?:\([^()]*\)[^()]*)*)\)' % re.escape(callee), joined)
+    if not m:
+        return None
+    args = [a.strip() for a in m.group(1).split(',')]
+    params = None
+    for (nm, _ret, ptext, _b) in functions(path):
+        if nm == callee:
+            parts_, depth_, cur_ = [], 0, ''
+            for ch in ptext:
+                depth_ += ch in '[('
+                depth_ -= ch in '])'
+                if ch == ',' and depth_ == 0:
+                    parts_.append(cur_)
+                    cur_ = ''
+                else:
+                    cur_ += ch
+            parts_.append(cur_)
+            params = [re.split(r'[\s\*\]]+', q.strip())[-1] for q in parts_ if q.strip()]
+    if params is None or len(params) != len(args):
+        return None
+    return {pn: sorted(flows.get(a, [])) for pn, a in zip(params, args)}
+
+
 def const_term(node, consts, seen=()):
     cx = Ctx('', {k: v for k, v in consts.items() if k not in seen}, {})
     return expr(node, {}, cx), cx.used_consts
@@ -1477,6 +1527,10 @@ def main():
     ch1 = write_if_changed(os.path.join(VERIF, 'lean', 'MTfitVerif', 'Model', 'PyxKernels.lean'), model)
     ch2 = write_if_changed(os.path.join(VERIF, 'lean', 'MTfitVerif', 'Driver', 'PyxOps.lean'), ops)
     report['changed'] = bool(ch1 or ch2)
+    mc_path = os.path.join(REPO, 'src/MTfit/algorithms/cmarkov_chain_monte_carlo.pyx')
+    if os.path.exists(mc_path):
+        report['glue'] = {'acceptance_check': glue_map(mc_path, 'acceptance_check', 'c_acceptance_check'),
+                          'me_acceptance_check': glue_map(mc_path, 'me_acceptance_check', 'c_me_acceptance_check')}
     return report
 
 
